@@ -1,6 +1,7 @@
 //! C01, C03, C04: model-based oracles on the map space (engine E1).
 use crate::ast::*;
 use crate::e1::*;
+use crate::families::*;
 use crate::fw::*;
 use crate::model::Model;
 use crate::props::c02::corpus_files;
@@ -131,6 +132,8 @@ fn spaces(id: &str, tier: Tier) -> Vec<Box<dyn Space>> {
             v.push(Box::new(ms_b(if t { 4 } else { 3 }, true)));
             v.push(Box::new(ms_c()));
             v.push(Box::new(ms_e(if t { 2 } else { 1 })));
+            v.push(Box::new(scale_family(true)));
+            v.push(Box::new(unicode_family()));
             if t {
                 v.push(Box::new(ms_a(3, false)));
                 v.push(Box::new(ms_b(5, false)));
@@ -141,6 +144,9 @@ fn spaces(id: &str, tier: Tier) -> Vec<Box<dyn Space>> {
             v.push(Box::new(ms_b(if t { 5 } else { 4 }, true)));
             v.push(Box::new(ms_d(t)));
             v.push(Box::new(ms_a(2, false)));
+            v.push(Box::new(scale_family(false)));
+            v.push(Box::new(relation_family()));
+            v.push(Box::new(unicode_family()));
             if t {
                 v.push(Box::new(ms_b(6, false)));
             }
@@ -149,6 +155,9 @@ fn spaces(id: &str, tier: Tier) -> Vec<Box<dyn Space>> {
             v.push(Box::new(ms_d(t)));
             v.push(Box::new(ms_b(if t { 5 } else { 4 }, true)));
             v.push(Box::new(ms_a(if t { 2 } else { 1 }, true)));
+            v.push(Box::new(scale_family(true)));
+            v.push(Box::new(unicode_family()));
+            v.push(Box::new(relation_family()));
         }
     }
     v
